@@ -253,6 +253,8 @@ class Crate(object):
                 i += 1
                 attrs = []
                 continue
+            if any(a.startswith("#[cfg") for a in attrs) and not is_id(t, "use"):
+                raise TErr("conditional compilation (%s) of an item is outside the language" % [a for a in attrs if a.startswith("#[cfg")][0])
             if is_id(t) and i + 1 < n and is_p(toks[i + 1], "!") and t.s in self.macros:
                 e = match_close(toks, i + 2)
                 args = KC.split_args(toks[i + 3:e - 1])
